@@ -762,6 +762,24 @@ class Discharger:
             return self.radix(f, node, recv)
         if recv["k"] == "call" and recv["f"]["k"] == "path" and recv["f"]["segs"][-1] == "from_str_radix":
             return self.radix(f, node, recv)
+        # formatting into a String: `<String as fmt::Write>` never fails, so write_fmt / write! only returns Err when a
+        # Display impl does — std's do not, and the crate's own are examined by C03.render
+        wf = recv
+        if wf["k"] == "macro" and wf["name"] in ("write", "writeln") and wf.get("args"):
+            tgt_ = rx.var_name(rx.peel(wf["args"][0]))
+        elif wf["k"] == "mcall" and wf["m"] == "write_fmt" and len(wf["args"]) == 1:
+            tgt_ = rx.var_name(rx.peel(wf["recv"]))
+        else:
+            tgt_ = None
+        if tgt_ is not None:
+            ptys = {n_: t_ for n_, t_ in f.params if n_}
+            lets_ = {rx.pat_bindings(s_["pat"])[0]: s_ for s_ in find_all(f.body, lambda n_: n_.get("k") == "let") if rx.pat_bindings(s_["pat"])}
+            is_string = ptys.get(tgt_, "").replace("&mut", "").replace("&", "") == "String"
+            if not is_string and tgt_ in lets_ and lets_[tgt_].get("init") is not None:
+                i0 = rx.peel(lets_[tgt_]["init"])
+                is_string = i0.get("k") == "call" and i0["f"].get("k") == "path" and i0["f"]["segs"][-2:] in (["String", "new"], ["String", "with_capacity"], ["String", "from"])
+            if is_string:
+                return True, "const-arg", "formatting into the String `%s`: `impl fmt::Write for String` cannot fail (Display impls of the crate: C03.render)" % tgt_
         # clock
         if "duration_since" in rs and "UNIX_EPOCH" in rs:
             return True, "clock", "SystemTime::now().duration_since(UNIX_EPOCH).unwrap(): environment assumption (clock ≥ 1970), recorded in `assumptions`"
